@@ -18,6 +18,7 @@ def check(chk):
     chk.rule('C15.arm', '_start_timer: with the slot free and a finite timeout every path creates a timer')
     chk.rule('C15.chain', 'timer callbacks (_on_timeout, _on_speculative_execute) finalise or re-arm on every path')
     chk.rule('C15.entry', 'every entry point that starts a (page) request calls _start_timer after freeing the slot and (re)starting the clock')
+    chk.rule('C15.timers', 'TimerManager.service_timeouts merges newly added timers into the queue before it reports the next deadline')
     chk.rule('C15.clock', '_time_remaining = start + timeout - now (None without timeout); the timers are created with these delays and these callbacks')
     cl = chk.repo.mod(CLUSTER)
     st = cl.func('ResponseFuture._start_timer')
@@ -161,3 +162,25 @@ def check(chk):
     s = src(sr)
     chk.judge('self.timeout is not None and time.time() - self._start_time > self.timeout' in s and 'self._on_timeout()' in s, 'C15.chain', sr,
               'send_request gives up with _on_timeout() once the deadline passed while walking the plan', 'the plan walk no longer checks the deadline')
+
+    # ---- the reactors' timer queue: a timer added after the queue was last serviced must be merged before the next deadline is reported
+    cm = chk.repo.mod('cassandra/connection.py')
+    st_ = cm.func('TimerManager.service_timeouts')
+    gt = CFG(st_)
+
+    def stept(node, c):
+        if node.ast is not None and node.kind == 'test' and src(node.ast) in ('self._new_timers', 'new_timers'):
+            return True
+        if node.ast is not None and node.kind == 'stmt' and 'self._new_timers' in src(node.ast) and 'heappush' in src(node.ast):
+            return True
+        return c
+    flt = Flow(gt, False, stept)
+    rets = [n for n in gt.nodes if n.kind == 'return' and n.ast is not None and n.ast.value is not None]
+    if not rets or not any('_new_timers' in src(x) for x in body_walk(st_)):
+        raise AnalysisError('TimerManager.service_timeouts: deadline returns / new-timer merge not found')
+    early = [n for n in rets if not all(c for _f, c in flt.at(n))]
+    chk.judge(not early, 'C15.timers', st_, 'service_timeouts: every reported deadline comes after the merge of _new_timers',
+              'a deadline is returned (line %s) before the newly added timers were merged: a request timer added while a later timer is queued is not '
+              'seen until that later deadline - the request outlives its timeout' % ', '.join(str(n.line()) for n in early))
+    at_ = cm.func('TimerManager.add_timer')
+    chk.judge('self._new_timers.append((timer.end, timer))' in src(at_), 'C15.timers', at_, 'add_timer files the timer under its end time', 'add_timer changed')
